@@ -2474,6 +2474,10 @@ int call_function_interactive (interactive_t * i, char *str) {
       set_telnet_single_char (i, 0);
     }
 
+  /* The value stack takes over the local reference to funp: if the callback raises an error the
+   * stack is unwound and the function pointer is released with it (it used to be leaked). */
+  push_refed_funp (funp);
+
   /* Push input FIRST.
    * The LPC efun input_to/get_char expect the input string to be the
    * first argument, followed by any carryover args from the original call
@@ -2501,7 +2505,7 @@ int call_function_interactive (interactive_t * i, char *str) {
    *     foo(arg1, arg2, str, arg3, arg4) where str is the user input.
    */
   call_function_pointer (funp, num_arg + 1);
-  free_funp (funp); /* by local variable funp */
+  pop_stack (); /* funp, by local variable funp */
   funp = 0;
   return 1;
 }				/* call_function_interactive() */
